@@ -1,6 +1,7 @@
 package c05
 
 import (
+	"bytes"
 	"fmt"
 	"runtime"
 	"strings"
@@ -568,4 +569,61 @@ func evictRaceCase(k *engine.Case) {
 		}
 	}
 	k.Count("evict_race_rounds", rounds)
+}
+
+// ---------------------------------------------------------------- kind "big-size"
+
+// bigSizeCase: the bound is the size the caller asked for, also when that is a large number.
+// size keys are set and every one of them must still be retrievable (each was touched more
+// recently than at most size-1 other distinct keys); a few more keys push out exactly the
+// oldest ones: at most size keys are retrievable and the size most recently touched ones all are.
+func bigSizeCase(k *engine.Case) {
+	r := k.R
+	restore := installClock(9000)
+	defer restore()
+	size := []int{65535, 65536, 65537, 70001, 100003, 1<<17 + 1, 60000 + r.Intn(140000), 4096 + r.Intn(60000), 1 << 16, 1<<16 + 1 + r.Intn(9)}[r.Intn(10)]
+	ttl := []int64{0, 0, 3600, -1}[r.Intn(4)]
+	if r.Intn(4) == 0 {
+		ttl = hugeTTL(r)
+	}
+	extra := 1 + r.Intn(50)
+	k.Logf("NewTTLMemCache(size=%d, ttl=%d): Set of %d distinct keys, Get of each, %d further keys, Get of all", size, ttl, size, extra)
+	k.Nontrivial()
+	c := cache.NewTTLMemCache(size, ttl)
+	key := func(i int) string { return fmt.Sprintf("big-%d", i) }
+	val := func(i int) []byte { return []byte{byte(i), byte(i >> 8), byte(i >> 16)} }
+	for i := 0; i < size; i++ {
+		c.Set(bg, key(i), val(i))
+	}
+	k.Evals(1)
+	for i := 0; i < size; i++ {
+		v, err := c.Get(bg, key(i))
+		if err != nil || !bytes.Equal(v, val(i)) {
+			k.Fail("recent-key-evicted", "size=%d ttl=%d: after Set of %d distinct keys (no other call) Get(%q) = (%v, %v): only %d other distinct keys were touched after it", size, ttl, size, key(i), v, err, size-1-i)
+			return
+		}
+	}
+	for i := size; i < size+extra; i++ {
+		c.Set(bg, key(i), val(i))
+	}
+	live := 0
+	for i := 0; i < size+extra; i++ {
+		v, err := c.Get(bg, key(i))
+		if err == nil {
+			live++
+			if !bytes.Equal(v, val(i)) {
+				k.Fail("wrong-value", "size=%d: Get(%q) = %v, Set stored %v", size, key(i), v, val(i))
+				return
+			}
+		} else if i >= extra {
+			k.Fail("recent-key-evicted", "size=%d ttl=%d: %d keys set and read in order, then %d more set: Get(%q) = %v although fewer than size distinct keys were touched after it", size, ttl, size, extra, key(i), err)
+			return
+		}
+	}
+	if live > size {
+		k.Fail("bound-exceeded", "size=%d: %d keys are retrievable after %d distinct keys were set", size, live, size+extra)
+		return
+	}
+	k.Count("big_size_cases", 1)
+	k.Count("big_size_keys", int64(size+extra))
 }
